@@ -248,8 +248,24 @@ NAME_POOLS = {
     # names with characters that are separators elsewhere, blanks, digits, non-ASCII (the predicate is lenient when a
     # name contains a separator in play; the model is still compared)
     "special": ["a.b", "c-d", "e f", "g1", "\u00fc", "a", "x|y", "b", "1", "a.b", "c", "d_e"],
+    # names that start or end with a character of a multi-character separator without containing the separator:
+    # known finding K3 (character-set semantics of rstrip/lstrip) when such a separator is in use
+    "edge": ["a-", "-b", "c>", ":d", "e=", "f|", "a", "b", "c", "=g", "h:", "k"],
 }
 SEPS = ["/", "\\", "-", ".", "|"]
+SEPS_MULTI = ["->", "::", "=>", "//", "-|-"]
+
+
+def _pick_sep(rng, base=None):
+    """a separator: the given one, a single character, a multi-character one (30 %), rarely the empty string"""
+    r = rng.random()
+    if r < 0.012:
+        return ""
+    if r < 0.31:
+        return rng.choice(SEPS_MULTI)
+    if base is not None and r < 0.72:
+        return base
+    return "/" if r < 0.80 else rng.choice(SEPS)
 SHAPES = ["wide", "deep", "mixed", "path", "star", "hub"]
 NEW_NAMES = ["n", "nn", "p"]
 
@@ -424,13 +440,13 @@ def gen_case(rng, flags_idx=None, op=None):
     pool = NAME_POOLS[stratum]
     shape = rng.choice(SHAPES + ["hub", "hub"])
     tree = gen_tree(rng, pool, shape, 9, root_name=(rng.choice(pool) if rng.random() < 0.1 else "r"))
-    tsep = "/" if rng.random() < 0.6 else rng.choice(SEPS)
-    sep = tsep if rng.random() < 0.6 else rng.choice(SEPS)
+    tsep = _pick_sep(rng)
+    sep = _pick_sep(rng, base=tsep)
     tt = op.startswith("tt_")
     tree2, tsep2 = None, tsep
     if tt:
         tree2 = gen_tree(rng, pool, rng.choice(SHAPES), 7, root_name=rng.choice(["r", "s", tree[0]]))
-        tsep2 = tsep if rng.random() < 0.5 else rng.choice(SEPS)     # from_tree.sep != to_tree.sep stays frequent
+        tsep2 = tsep if rng.random() < 0.5 else _pick_sep(rng)        # from_tree.sep != to_tree.sep stays frequent
     flags = light_flags(rng) if flags_idx is None else flag_combo(flags_idx)
     paths = tree_paths(tree)
     paths2 = tree_paths(tree2) if tt else paths
@@ -546,16 +562,38 @@ def generate(prop, rng, tier):
 # evidence helpers
 
 
-def _multichar(case):
-    return any(len(s) > 1 for s in (case["sep"], case["tsep"], case["tsep2"] or "/"))
+def _seps_in_use(case):
+    out = [case["sep"], case["tsep"]]
+    if case["op"].startswith("tt_"):
+        out.append(case["tsep2"] or "/")
+    return out
+
+
+def _names_in_use(case):
+    out = set()
+
+    def walk(t):
+        if t is not None:
+            out.add(t[0])
+            for k in t[2]:
+                walk(k)
+    walk(case["tree"])
+    walk(case["tree2"])
+    sep = case["sep"]
+    for pth in list(case["from"]) + list(case["to"]):
+        if pth and sep:
+            out.update(x for x in pth.split(sep) if x)
+    return out
 
 
 def matches_finding(prop, entry, case, obs, flags):
-    # K3: `rstrip(sep)` / `lstrip(sep)` strip a character *set*; with a multi-character separator a path whose
-    # last name ends in one of its characters is mangled.  The failure must be the documented one: the property
-    # predicate is false while the model still agrees with the implementation.
-    if entry.get("id") == "K3-C08":
-        return _multichar(case) and bool(flags & 2) and not (flags & 1)
+    # K3: `rstrip(sep)` / `lstrip(sep)` strip a character *set*.  Narrow matcher: the property predicate is false while
+    # the model still agrees with the implementation (flags == 2 exactly), a multi-character separator is in use, and
+    # some name in play starts or ends with one of its characters.
+    if entry.get("id") == "K3-C08" and flags == 2:
+        for sp in _seps_in_use(case):
+            if len(sp) > 1 and any(n and (n[0] in sp or n[-1] in sp) for n in _names_in_use(case)):
+                return True
     return False
 
 
@@ -653,8 +691,9 @@ def rule(prop):
             "suffix-related a,xa,ab,b,bc / special characters; root name sometimes repeated below; int and mutable list "
             "attributes) x the five public functions x 0-3 (from,to) pairs (full and partial from-paths, "
             "new / existing / same / nested / deleted destinations, None and '' to-paths, a few malformed ones) x all 64 "
-            "flag combinations (round-robin in quick, full product per scenario in thorough) x separators / \\ - . | for "
-            "`sep`, tree.sep and to_tree.sep independently (from_tree.sep != to_tree.sep in about half of the tree-to-tree "
+            "flag combinations (round-robin in quick, full product per scenario in thorough) x separators / \\ - . | and, in about 30 % of the "
+            "draws each, -> :: => // -|- (plus a name pool whose names start/end with such characters: K3), rarely the empty "
+            "string, for `sep`, tree.sep and to_tree.sep independently (from_tree.sep != to_tree.sep in about half of the tree-to-tree "
             "cases); half of the calls rely on the documented defaults instead of passing sep='/' / False flags; 3 % hand "
             "over a tuple or generator (must be refused with ValueError, nothing changed); 30 % use a Node subclass; with "
             "with_full_path and one pair a non-root node of the tree is handed over as `tree` / `to_tree`; every multi-pair "
@@ -679,15 +718,18 @@ def partial_clauses(prop):
         "overriding / merge flags / replace: no theorem; same",
         "override / shift with one node inside the other, from == to with a merge flag, copy into the source subtree: "
         "no theorem; same (prop_C08 is lenient for destinations inside the source subtree)",
-        "string layer: C08_shift_whole_call ties rstrip/replace/split, the argument checks, find_full_path and "
-        "add_path_to_tree to the table result for one plain full-path pair under a single-character separator not "
-        "occurring in the names; C08_multi_is_sequence and C08_tree_to_tree_source_untouched are whole-call theorems "
+        "string layer: C08_shift_whole_call_multi (C08_shift_whole_call = its one-character instance) ties "
+        "rstrip/replace/split, the argument checks, find_full_path and add_path_to_tree to the table result for one plain "
+        "full-path pair under a separator of any positive length (sep = tree.sep) no CHARACTER of which occurs in a name "
+        "on the two paths; substring-free names that start/end with a separator character are known finding K3; empty "
+        "separators are modelled (an empty tree.sep makes split raise ValueError before any pair is processed, an empty "
+        "`sep` is no error) and compared by the correspondence, without a theorem; C08_multi_is_sequence and C08_tree_to_tree_source_untouched are whole-call theorems "
         "for all inputs; partial from-paths (find_path), leading/trailing separators and differing sep / tree.sep are "
         "tied to the code by the correspondence only",
         "accepted blind spots of the correspondence (leniency audit): (a) F_SKIP domains, where neither model nor "
         "predicate constrain the outcome: merge_leaves without copy into the source subtree (lazy generator), a call that "
-        "re-parents the tree object itself (root shifted with delete_children below itself), empty separators; (b) prop_C08 "
-        "is lenient (model still compared exactly) for malformed path strings, names containing a separator in play, "
+        "re-parents the tree object itself (root shifted with delete_children below itself); (b) prop_C08 "
+        "is lenient (model still compared exactly) for empty separators, malformed path strings, names containing a separator in play, "
         "partial from-paths matching only a suffix of a name, the root as shift source, destinations inside the source "
         "subtree, sibling-name clashes midway, replacing the root, deletion combined with a merge flag; (c) not observed: "
         "nodes detached by the call (overridden / deleted subtrees) and their links, the class of nodes the call creates, "
